@@ -1,10 +1,13 @@
 """C20 only: abstract jobs of spec/Isolate.tla <-> real connections, statements, parameter containers and pause points.
 
 A job (vocabulary of Isolate.tla) is
-  {conn, ledger: [{u, posts: [v..]}..], tab: 'e'|'p', star, targets: [{k, i}..], where: [{k, i}..], lo, hi, lit, wpause, ppause}
-A connection is realised either as a Beancount ledger (tables #entries / #postings; the abstract columns are realised by
-real columns -- id, date, narration, payee, tags, links, lineno, account, number, ... -- whose values are decoded back to
-the identity of the directive / posting they show) or as harness tables #e / #p with integer columns k, a, b.
+  {conn, ledger: [{u, posts: [v..], ty}..], tab: 'e'|'p'|'x', ty, star, targets: [{k, i}..], where: [{k, i}..], lo, hi, lit,
+   wpause, ppause, parse}
+A connection is realised either as a Beancount ledger (tables #entries / #postings and, for tab 'x', the typed tables
+#transactions / #prices / #events / #notes / #balances / #documents / #commodities: directive type ty; the abstract
+columns are realised by real columns -- id, date, narration, payee, tags, links, lineno, account, number, currency,
+amount.number, comment, ... -- whose values are decoded back to the identity of the directive / posting they show) or
+as harness tables #e / #p / #x<ty> with integer columns k, a, b.
 
 Pause points (all reached through public extension points, nothing inside the library is touched):
   run time      pause(tid) / ypoint()     BQL functions evaluated per row (pass_row=True: never folded)
@@ -12,10 +15,17 @@ Pause points (all reached through public extension points, nothing inside the li
                                           middle of the compilation, at their place in the statement
                 wildcard_columns          property of the harness tables, asked by the compiler for SELECT *
                 parameters[...]           __getitem__ of the mapping / sequence passed as query parameters
+  parse time    job['parse'] = k > 0      the statement is submitted as TEXT and the thread is descheduled at k places
+                                          INSIDE beanquery.parser.parse(): a sys.monitoring callback (nothing in the
+                                          library is touched) counts the calls of the parser's rule methods, semantic
+                                          actions and node constructors and hands the turn over at k of them, chosen
+                                          by the case's `pick`
 Python only drives, projects and compares: expected rows come from TLC (Gen_Isolate) or are judged by TLC (Trace_Isolate).
 """
 import datetime
 import decimal
+import os
+import sys
 import threading
 
 from harness import sched
@@ -86,10 +96,16 @@ class HookTable(ht.HarnessTable):
 
 
 # ---- abstract tables (the same definition as TableRows in Isolate.tla; used to BUILD the data, never to judge) --------
-def table_rows(ledger, tab):
+def table_rows(ledger, tab, ty=0):
     if tab == 'e':
         return [(d['u'], d['u'], d['u']) for d in ledger]
+    if tab == 'x':
+        return [(d['u'], d['u'], d['u']) for d in ledger if d.get('ty', 0) == ty]
     return [(v, d['u'], v) for d in ledger for v in d['posts']]
+
+
+def mixed(ledger):
+    return any(d.get('ty', 0) for d in ledger)
 
 
 # ---- realisation: Beancount ledger ------------------------------------------------------------------------------------
@@ -98,6 +114,21 @@ def build_entries(ledger):
     entries = []
     for d in ledger:
         u = d['u']
+        ty = d.get('ty', 0)
+        if ty:
+            meta = {'filename': '<verif>', 'lineno': u}
+            day = datetime.date.fromordinal(BASE + u)
+            amt = amount.Amount(decimal.Decimal(u), 'USD')
+            one = lambda c: frozenset(['%s%d' % (c, u)])      # noqa
+            entries.append({
+                1: lambda: data.Price(meta, day, 'C%d' % u, amt),
+                2: lambda: data.Event(meta, day, 't%d' % u, 'n%d' % u),
+                3: lambda: data.Note(meta, day, 'Assets:A%d' % u, 'n%d' % u, one('t'), one('l')),
+                4: lambda: data.Balance(meta, day, 'Assets:A%d' % u, amt, None, None),
+                5: lambda: data.Document(meta, day, 'Assets:A%d' % u, 'n%d' % u, one('t'), one('l')),
+                6: lambda: data.Commodity(meta, day, 'C%d' % u),
+            }[ty]())
+            continue
         posts = [data.Posting('Assets:A%d' % v, amount.Amount(decimal.Decimal(v), 'USD'), None, None, None,
                               {'filename': '<verif>', 'lineno': v}) for v in d['posts']]
         entries.append(data.Transaction({'filename': '<verif>', 'lineno': u}, datetime.date.fromordinal(BASE + u), '*',
@@ -162,12 +193,34 @@ POSTING_COLS = [         # ... the posting (postings table)
     ("meta('lineno')", _num), ('leaf(account)', _tail('A')), ('weight', _units), ("any_meta('lineno')", _num),
 ]
 KEY_COL = ('lineno', _num)       # int on both tables: the directive's / the posting's own number
+# a ledger with directives of several types: the #entries columns that every directive has
+MIXED_COLS = [('id', _id), ('date', _num), ('lineno', _num)]
+# the typed tables (tab 'x'): directive type -> table name, columns identifying the directive; the key column is `date`
+TYPED_TABLE = {0: 'transactions', 1: 'prices', 2: 'events', 3: 'notes', 4: 'balances', 5: 'documents', 6: 'commodities'}
+_LINENO = ("meta['lineno']", _num)
+TYPED_COLS = {
+    0: [('narration', _tail('n')), ('payee', _tail('p')), ('tags', _tail('t')), ('links', _tail('l')), ('date', _num), _LINENO],
+    1: [('currency', _tail('C')), ('amount.number', _num), ('number(amount)', _num), ('date', _num), _LINENO],
+    2: [('type', _tail('t')), ('description', _tail('n')), ('date', _num), _LINENO],
+    3: [('account', _tail('Assets:A')), ('comment', _tail('n')), ('tags', _tail('t')), ('links', _tail('l')), ('date', _num),
+        _LINENO],
+    4: [('account', _tail('Assets:A')), ('amount.number', _num), ('date', _num), _LINENO],
+    5: [('account', _tail('Assets:A')), ('filename', _tail('n')), ('tags', _tail('t')), ('links', _tail('l')), ('date', _num),
+        _LINENO],
+    6: [('name', _tail('C')), ('date', _num), _LINENO],
+}
+TYPED_KEY = ('date', _num)       # compared with DATE values: day BASE + key
 
 
-def ledger_column(tab, i, pick):
+def ledger_column(tab, i, pick, ty=0, mixed_ledger=False):
     """abstract column i of table tab -> (BQL expression, decoder); pick: an integer choosing among the real columns"""
+    if tab == 'x':
+        cols = TYPED_COLS[ty]
+        return TYPED_KEY if i == 1 else cols[(pick + i) % len(cols)]
     if i == 1:
         return KEY_COL
+    if tab == 'e' and mixed_ledger:
+        return MIXED_COLS[(pick + i) % len(MIXED_COLS)]
     if i == 2:
         return DIRECTIVE_COLS[pick % len(DIRECTIVE_COLS)]
     own = E_OWN_COLS if tab == 'e' else POSTING_COLS
@@ -179,7 +232,7 @@ class Case:
     """jobs: list of abstract jobs; the style is a function of the integer `pick` (stored in replay files):
        kinds {conn: 'ledger'|'tables'}, the real column standing for each abstract column (ONE per case and column class:
        all the threads of a case meet in the same accessors), params 'named'|'positional', anon (pause points without
-       the thread id in the text), submit 'ast'|'text'|'shared-ast'"""
+       the thread id in the text), submit 'ast'|'text'|'shared-ast' (a job with parse > 0 is always submitted as text)"""
 
     def __init__(self, jobs, pick):
         import random
@@ -215,13 +268,15 @@ class Case:
                                                   options=dict(bopts.OPTIONS_DEFAULTS))
             else:
                 cols = [('k', 'int'), ('a', 'int'), ('b', 'int')]
+                typed = sorted({j['ty'] for j in self.jobs if j['conn'] == c and j['tab'] == 'x'})
                 self.conns[c] = ht.connection(HookTable('e', cols, table_rows(ledger, 'e')),
-                                              HookTable('p', cols, table_rows(ledger, 'p')))
+                                              HookTable('p', cols, table_rows(ledger, 'p')),
+                                              *[HookTable('x%d' % ty, cols, table_rows(ledger, 'x', ty)) for ty in typed])
 
     def column(self, job, i):
         if self.kinds[job['conn']] == 'tables':
             return 'kab'[i - 1], _num
-        return ledger_column(job['tab'], i, self.pick)
+        return ledger_column(job['tab'], i, self.pick, job.get('ty', 0), mixed(job['ledger']))
 
     def statement(self, job, tid):
         """-> (text, parameters, decoders: one per output column or None for a pause target, value of the pause
@@ -245,13 +300,15 @@ class Case:
                     tgs.append((rp if a['k'] == 'rp' else cp, '%s%d' % ('p' if a['k'] == 'rp' else 'q', n)))
                     decs.append(None)
         key = self.column(job, 1)[0]
+        # the key of a typed table is its date column: bounds are dates there
+        kv = (lambda v: datetime.date.fromordinal(BASE + v)) if job['tab'] == 'x' and not tables else (lambda v: v)
         conj = []         # (text, builder)
         names = []
         for a in job['where']:
             if a['k'] in ('lo', 'hi'):
                 cls = ast.GreaterEq if a['k'] == 'lo' else ast.LessEq
                 if job['lit']:
-                    rhs, mk = str(job[a['k']]), (lambda v=job[a['k']]: ast.Constant(v))
+                    rhs, mk = str(kv(job[a['k']])), (lambda v=kv(job[a['k']]): ast.Constant(v))
                 elif self.params == 'named':
                     rhs, mk = '%%(%s)s' % a['k'], (lambda k=a['k']: ast.Placeholder(k))
                 else:
@@ -262,16 +319,19 @@ class Case:
             else:
                 f = rp if a['k'] == 'rp' else cp
                 conj.append(('%s = %d' % (f, val), lambda f=f: ast.Equal(fragment(f), ast.Constant(val))))
-        table = ('e' if job['tab'] == 'e' else 'p') if tables else ('entries' if job['tab'] == 'e' else 'postings')
+        if job['tab'] == 'x':
+            table = 'x%d' % job['ty'] if tables else TYPED_TABLE[job['ty']]
+        else:
+            table = ('e' if job['tab'] == 'e' else 'p') if tables else ('entries' if job['tab'] == 'e' else 'postings')
         text = 'SELECT %s FROM #%s' % (', '.join('%s AS %s' % t for t in tgs) if tgs else '*', table)
         if conj:
             text += ' WHERE ' + ' AND '.join(c[0] for c in conj)
         params = None
         if not job['lit'] and names:
             if self.params == 'named':
-                params = (PausingDict if job['ppause'] else dict)(lo=job['lo'], hi=job['hi'])
+                params = (PausingDict if job['ppause'] else dict)(lo=kv(job['lo']), hi=kv(job['hi']))
             else:
-                params = (PausingTuple if job['ppause'] else tuple)(job[k] for k in names)
+                params = (PausingTuple if job['ppause'] else tuple)(kv(job[k]) for k in names)
 
         def build():
             targets = [ast.Target(fragment(e), name) for e, name in tgs] if tgs else ast.Asterisk()
@@ -285,7 +345,16 @@ class Case:
         job = self.jobs[tid - 1]
         text, params, decs, val, build = self.statement(job, tid)
         conn = self.conns[job['conn']]
-        if self.submit == 'text':
+        nparse = job.get('parse', 0)
+        places = []
+        if nparse:
+            # submitted as text; the places inside the parser where the thread is descheduled: a function of the pick
+            import random
+            stmt = text
+            ncalls = parser_calls(text)
+            r = random.Random(self.pick * 31 + tid)
+            places = sorted(r.sample(range(1, ncalls + 1), nparse)) if ncalls >= nparse else [1] * nparse
+        elif self.submit == 'text':
             stmt = text
         elif self.submit == 'shared-ast':
             stmt = self._shared.setdefault(text, build())      # threads with the same text share ONE syntax tree
@@ -294,18 +363,139 @@ class Case:
 
         def run():
             _flags.wpause = bool(job['wpause'])
+            pauses = _ptl.state = ParserPauses(places) if nparse else None
             try:
                 cur = conn.cursor()
                 cur.execute(stmt, params)
+                if pauses:
+                    # an execution that did not go through parse() has its pause points here: the property does not say
+                    # that a text is parsed anew every time, and the rows must not depend on where a thread waits
+                    _ptl.state = None
+                    pauses.flush()
                 raw = cur.fetchall()
             finally:
+                _ptl.state = None
                 _flags.wpause = False
             return project(raw, decs, val, self.idmap)
         return run, text, params
 
     def describe(self):
         return {'kinds': {str(k): v for k, v in self.kinds.items()}, 'params': self.params, 'anon': self.anon,
-                'submit': self.submit, 'pick': self.pick}
+                'submit': self.submit, 'pick': self.pick,
+                'as_text': [t for t, j in enumerate(self.jobs, 1) if j.get('parse')]}
+
+
+# ---- pause points inside the parser ------------------------------------------------------------------------------------
+# sys.monitoring (PEP 669, CPython 3.12): a PY_START event on the code objects of beanquery/parser/*.py only -- the
+# generated rule methods, the semantic actions, the syntax tree constructors -- and nowhere else, so that an execution
+# costs what it costs without; nothing in the library is touched.  The callback acts only in a thread that carries a
+# ParserPauses object (thread-local), i.e. in a scheduled thread executing a statement submitted as text.
+_MON = {}
+_ptl = threading.local()
+
+
+class ParserPauses:
+    """From the moment the thread enters beanquery.parser.parse() the function calls made in the parser's own modules
+    are counted and the turn is handed over at the calls numbered `places`; what is left of them when parse() returns
+    is handed over there (the number of pause points of a run does not depend on the parser's internals)."""
+
+    def __init__(self, places):
+        self.places = list(places)
+        self.inside = False
+        self.used = False
+        self.count = 0
+        self.done = 0
+
+    def flush(self):
+        while self.done < len(self.places):
+            self.done += 1
+            _hand_over()
+
+
+def _on_start(code, offset):
+    st = getattr(_ptl, 'state', None)
+    if st is None:
+        return
+    if code is _MON['parse']:
+        if not st.used:
+            st.used = st.inside = True
+        return
+    if st.inside:
+        st.count += 1
+        while st.done < len(st.places) and st.places[st.done] <= st.count:
+            st.done += 1
+            _hand_over()
+
+
+def _on_return(code, offset, retval):
+    st = getattr(_ptl, 'state', None)
+    if st is not None and st.inside and code is _MON['parse']:
+        st.flush()
+        st.inside = False
+
+
+def monitor_parser():
+    """install the callbacks (idempotent)"""
+    import types
+    from beanquery import parser
+    with _reg_lock:
+        if _MON:
+            return
+        mon = sys.monitoring
+        tool = next((i for i in (mon.PROFILER_ID, 3, 4, mon.OPTIMIZER_ID) if mon.get_tool(i) is None), None)
+        if tool is None:
+            from harness.core import MachineryError
+            raise MachineryError('no free sys.monitoring tool id for the pause points inside the parser')
+        mon.use_tool_id(tool, 'verif-c20')
+        where = os.path.dirname(os.path.abspath(parser.__file__)) + os.sep
+        codes = set()
+
+        def add(code):
+            if isinstance(code, types.CodeType) and code not in codes and code.co_filename.startswith(where):
+                codes.add(code)
+                for c in code.co_consts:
+                    add(c)
+
+        def walk(obj, depth=0):
+            while hasattr(obj, '__wrapped__'):            # the rule methods are wrapped by tatsu's decorator
+                obj = obj.__wrapped__
+            if isinstance(obj, (staticmethod, classmethod)):
+                obj = obj.__func__
+            if isinstance(obj, property):
+                obj = obj.fget
+            if isinstance(obj, types.FunctionType):
+                add(obj.__code__)
+            elif isinstance(obj, type) and depth == 0 and getattr(obj, '__module__', '').startswith(parser.__name__):
+                for member in vars(obj).values():
+                    walk(member, 1)
+        for module in (parser, parser.parser, parser.ast):
+            for obj in list(vars(module).values()):
+                walk(obj)
+        mon.register_callback(tool, mon.events.PY_START, _on_start)
+        mon.register_callback(tool, mon.events.PY_RETURN, _on_return)
+        for code in codes:
+            mon.set_local_events(tool, code, mon.events.PY_START)
+        mon.set_local_events(tool, parser.parse.__code__, mon.events.PY_START | mon.events.PY_RETURN)
+        _MON.update(parse=parser.parse.__code__, tool=tool, codes=len(codes))
+
+
+_CALLS = {}
+
+
+def parser_calls(text):
+    """the number of function calls the parser makes for `text` (measured once per text, in the calling thread)"""
+    from beanquery import parser
+    if text not in _CALLS:
+        monitor_parser()
+        st = _ptl.state = ParserPauses([])
+        try:
+            parser.parse(text)
+        except Exception:     # noqa  (the execution will report it)
+            pass
+        finally:
+            _ptl.state = None
+        _CALLS[text] = st.count
+    return _CALLS[text]
 
 
 _FRAG = {}
@@ -389,5 +579,6 @@ def conn_mode(jobs):
 def shape(job):
     def atoms(xs):
         return ','.join(a['k'] + (str(a['i']) if a['k'] == 'col' else '') for a in xs) or '-'
-    return '%s:%s:where=%s%s' % (job['tab'], '*' if job['star'] else atoms(job['targets']), atoms(job['where']),
-                                 '' if job['lit'] else ':params')
+    return '%s:%s:where=%s%s%s' % (job['tab'] + (str(job['ty']) if job['tab'] == 'x' else ''),
+                                   '*' if job['star'] else atoms(job['targets']), atoms(job['where']),
+                                   '' if job['lit'] else ':params', ':text' if job.get('parse') else '')
